@@ -4573,6 +4573,27 @@ func firstElementReadBefore(h *ssa.BasicBlock) bool {
 							found = true
 						}
 					}
+					// a helper introduced since the baseline that is handed an integer constant 0 and uses that
+					// parameter as the index of an element accessor (`transformedXY(seq, 0, f)`)
+					if isNewHelper(cal) {
+						for ai, a := range x.Call.Args {
+							if k, ok := constInt(a); !ok || k != 0 || ai >= len(cal.Params) || !isIntegerT(a.Type()) {
+								continue
+							}
+							par := cal.Params[ai]
+							eachCall(cal, func(ci ssa.CallInstruction) {
+								if ic := staticCallee(ci); ic != nil {
+									switch ic.Name() {
+									case "Get", "GetXY", "PointN", "LineStringN", "PolygonN", "GeometryN":
+										args := ci.Common().Args
+										if len(args) >= 2 && args[len(args)-1] == ssa.Value(par) {
+											found = true
+										}
+									}
+								}
+							})
+						}
+					}
 					switch cal.Name() {
 					case "ExteriorRing", "StartPoint":
 						found = true
